@@ -60,6 +60,13 @@ var properties = map[string]Prop{
 		Rule: "delay-bounded DFS over send/receive-level schedules of the real actor.System for target state{running, being killed (immediate/poison/slow subtree), failed+Stop/GracefulStop/Restart/GracefulRestart/Resume, terminated, terminated+name reused, never existed, zombie, system stopped, stashing} x reference provenance{ActorOf warm/cold cache, Clone, ParseRef, FindActor} x sender{outside goroutine, sibling actor}, three numbered messages racing the transition; oracle = conservation (processed xor stashed xor dead-lettered exactly once, by the addressee only, no mailbox holding mail at quiescence); distinct_nontrivial = distinct fate vectors per scenario",
 		Assumptions: append([]string{coarseAssumption}, schedAssumptions...),
 	},
+	"C16": {
+		Parts:       []Part{{Harness: "c16"}},
+		Level:       "exploration",
+		QuickBudget: 120, ThoroughBudget: 1200,
+		Rule: "all version vectors over ids {a,b,c} with per-id entry in {absent, explicit 0, 1, 2, Max} (quick; + Max-1 thorough) plus the zero-value struct: every pair (Compare vs pointwise reference, converse, Merge = pointwise max, commutative, idempotent, upper bound, operands unchanged), every single (Increment strictly After / overflow error, Clone isolation, Write/Read round trip consuming all bytes), every triple (transitivity, Equal is a congruence, Merge associative and least upper bound), and all operation sequences of depth 3 (4) over {Increment, Merge, Clone, Compact, Prune} from non-initial states against a dense reference model; a case is non-trivial when the operands differ / the sequence has at least one operation",
+		Assumptions: []string{"node ids are drawn from {a,b,c}; counters from the stated alphabet: laws about other ids/values are not covered", "the reference model is the dense function id -> counter with absent == 0"},
+	},
 	"C05": {
 		Parts:       []Part{{Harness: "c05"}},
 		Level:       "model_checking",
